@@ -204,20 +204,24 @@ Record ctx_cfg := {
   merge_variant : variant;
   update_plan : uc_plan;           (* Task.update_context *)
   job_parent_first : bool;         (* Job.get_context: merge_dicts([parent_context, context_override]) *)
-  run_config_first : bool          (* Scheduler.run: merge_dicts([self._context, context]) *)
+  run_config_first : bool;         (* Scheduler.run: merge_dicts([self._context, context]) *)
+  clear_keeps_parent : bool        (* Job.clear() (resolve/reject) does not reset self.parent_job *)
 }.
 
 Definition shipped : ctx_cfg :=
   {| merge_variant := AsShipped; update_plan := UMerge [UPrev; UCtx; UKw];
-     job_parent_first := true; run_config_first := true |}.
+     job_parent_first := true; run_config_first := true;
+     clear_keeps_parent := true |}.
 (** repair in merge_dicts *)
 Definition fixed : ctx_cfg :=
   {| merge_variant := Fixed; update_plan := UMerge [UPrev; UCtx; UKw];
-     job_parent_first := true; run_config_first := true |}.
+     job_parent_first := true; run_config_first := true;
+     clear_keeps_parent := true |}.
 (** alternative repair in Task.update_context: two binary merges *)
 Definition fixed_uc : ctx_cfg :=
   {| merge_variant := AsShipped; update_plan := UMerge [UMerge [UPrev; UCtx]; UKw];
-     job_parent_first := true; run_config_first := true |}.
+     job_parent_first := true; run_config_first := true;
+     clear_keeps_parent := true |}.
 
 Definition step_override (c : ctx_cfg) (prev : option value) (u : uc_call) : option value :=
   match prev with
@@ -244,6 +248,24 @@ Definition job_step (c : ctx_cfg) (parent : value) (calls : list uc_call) : opti
 Definition job_context (c : ctx_cfg) (root : value) (path : list (list uc_call)) : option value :=
   fold_left (fun acc calls => match acc with None => None | Some p => job_step c p calls end)
             path (Some root).
+
+(** Contexts computed late.  Job.clear() (called when a job is resolved or rejected) drops the
+    job's memoised context; Job.get_context() then recomputes it from [self.parent_job].  A job
+    created under an already concluded parent (fork_thread, a parent rejected by another child
+    while a cond/seq is still pending) therefore sees a recomputed parent context.
+    [rev_path]: the job first, then its parent, grand-parent, ...; the flag of an ancestor says
+    that it had concluded when the job below it asked for its context (so the ancestor's context
+    is recomputed after clear(): if clear() dropped the parent link, from the execution context). *)
+Fixpoint late_context (c : ctx_cfg) (root : value) (rev_path : list (bool * list uc_call)) : option value :=
+  match rev_path with
+  | [] => Some root
+  | (concluded, calls) :: ancestors =>
+      match (if concluded && negb (clear_keeps_parent c) then Some root
+             else late_context c root ancestors) with
+      | None => None
+      | Some p => job_step c p calls
+      end
+  end.
 
 Definition exec_context (c : ctx_cfg) (configured run_arg : value) : option value :=
   merge (merge_variant c) (pair_order (run_config_first c) configured run_arg).
